@@ -54,6 +54,8 @@ if confirmed:
     try:
         for cid in ids:
             for tier in ("quick", "thorough"):
+                if tier == "thorough" and cid != ids[0] and any(v["exit"] != 0 for v in det.values()):
+                    continue        # somebody caught it already: related checks only in the quick tier
                 t0 = time.time()
                 rc, o = sh("cd %s && python3 tools/vcheck.py %s --tier %s" % (V, cid, tier), timeout=3600)
                 viol = [l for l in o.split("\n") if l.startswith("VIOLATION")]
